@@ -212,7 +212,11 @@ def run_tlc_shards(spec_name, shard_files, checks, wd, timeout=1500, extra_env=N
 def run_tlc_model(spec_name, cfg_name, wd, workers=8, timeout=1800, xmx="6g", simulate=None, env_extra=None, extra=None):
     """Mode A: bounded model checking of the specification itself."""
     spec = os.path.join(SPEC, spec_name + ".tla")
-    cfg = os.path.join(SPEC, cfg_name + ".cfg")
+    if os.path.isabs(cfg_name):
+        cfg = cfg_name
+        cfg_name = os.path.basename(cfg_name)[:-4]
+    else:
+        cfg = os.path.join(SPEC, cfg_name + ".cfg")
     meta = os.path.join(wd, "meta-" + cfg_name)
     outp = os.path.join(wd, cfg_name + ".tlc.out")
     env = dict(os.environ)
